@@ -228,6 +228,25 @@ class Executor:
   def ev_ListComp(s,e,st):
     from . import symcoll
     g=e.generators[0] if len(e.generators)==1 else None
+    if g is not None and isinstance(g.target,ast.Tuple) and all(isinstance(t,ast.Name) for t in g.target.elts) and len(g.target.elts)==2 \
+       and isinstance(e.elt,ast.Name) and e.elt.id in [t.id for t in g.target.elts] and not g.is_async:
+      # [ b for a, b in <set of pairs> if cond ]: the list of the selected components.  Only 'every selected element is in the list' is
+      # recorded (the list may be assumed larger: an over-approximation, sound for code that only tests it for emptiness / raises on it)
+      for st1,it in s.ev(g.iter,st):
+        if isinstance(it,Exc): yield st1,it; continue
+        if not _setlike(it,st1) and not (isinstance(it,Ref) and it.cls=='setlist'): raise Unsupported("comprehension with tuple target over a concrete sequence")
+        dom,kt=symcoll.setval(it,st1)
+        x=z3.Const(f"pairelem!c{st1.nextid[0]}",symcoll.Obj); st1.nextid[0]+=1
+        st2=st1.fork(z3.And(z3.Select(dom,x),symcoll.Obj.is_pair(x)))
+        comps=[Opq(symcoll.Obj.fst(x),'obj'),Opq(symcoll.Obj.snd(x),'obj')]
+        for t,v in zip(g.target.elts,comps): st2.env[t.id]=v
+        conds=[s._pure_cond(c,st2) for c in g.ifs]
+        proj=comps[[t.id for t in g.target.elts].index(e.elt.id)].t
+        A=z3.Const(f"comp!{st1.nextid[0]}",symcoll.SetSort); st1.nextid[0]+=1
+        st3=st1.fork(z3.ForAll([x],z3.Implies(z3.And(z3.Select(dom,x),symcoll.Obj.is_pair(x),*conds),z3.Select(A,proj))))
+        r=symcoll.new_setlist(st3,A,None); st3.heap[(r.id,'bag')]=True
+        yield st3,r
+      return
     if g is not None and isinstance(g.target,ast.Name) and isinstance(e.elt,ast.Name) and e.elt.id==g.target.id and not g.is_async:
       # [ v for v in <set> if cond(v) ] : the (duplicate-free, arbitrarily ordered) list of the members satisfying cond
       done=False
@@ -514,6 +533,10 @@ class Executor:
 
   def identical(s,a,b):
     """z3 Bool for `a is b` (None/bool/small-int identity is value identity here) or None if unknown."""
+    for x,y in ((a,b),(b,a)):
+      if isinstance(x,NoneV) and isinstance(y,Opq) and z3.is_expr(y.t) and str(y.t.sort())=='Obj':
+        from . import symcoll
+        return y.t==symcoll.Obj.none          # an element of a symbolic collection may be None
     if isinstance(a,NoneV) or isinstance(b,NoneV): return z3.BoolVal(isinstance(a,NoneV) and isinstance(b,NoneV))
     if isinstance(a,Ref) and isinstance(b,Ref): return z3.BoolVal(a.id==b.id)
     if isinstance(a,Cls) and isinstance(b,Cls): return z3.BoolVal(a.name==b.name)
@@ -534,6 +557,10 @@ class Executor:
       yield st,B(z3.Not(t) if negate else t); return
     if isinstance(container,Opq) and container.kind=='os.environ':
       yield st,B(bool(negate)); return          # debugging environment variables are assumed unset (recorded assumption)
+    if isinstance(container,Opq) and z3.is_expr(container.t) and str(container.t.sort())=='Obj' and getattr(getattr(s,'contract',None),'opaque_attrs',False):
+      from . import symcoll
+      t=z3.Function('opq_member',symcoll.Obj,symcoll.Obj,z3.BoolSort())(container.t,symcoll.to_obj(x,st))      # a pure relation (assumption, as for attributes)
+      yield st,B(z3.Not(t) if negate else t); return
     h=s.reg.coll_handler(container,st)
     if h is not None:
       yield from h.contains(s,container,x,st,negate); return
@@ -659,6 +686,9 @@ class Executor:
       if h is not None: yield from h.getitem(s,o,idx,st); return
       if s.reg.find_method(o.cls,'__getitem__') is not None:
         yield from s.call_method(o,'__getitem__',[idx],st); return
+    if isinstance(o,Opq) and z3.is_expr(o.t) and str(o.t.sort())=='Obj' and o.kind!='any' and getattr(getattr(s,'contract',None),'opaque_attrs',False):
+      from . import symcoll
+      yield st,Opq(z3.Function('opq_item',symcoll.Obj,symcoll.Obj,symcoll.Obj)(o.t,symcoll.to_obj(idx,st)),'obj'); return       # pure function (assumption)
     if isinstance(o,Opq) and o.kind=='any':       # opaque data the property does not depend on (assumed not to raise; listed with the opaque methods)
       from . import symcoll
       st2=st.fork(); yield st2,mk_value(symcoll.ObjK('any'),"item@any",st2,True); return
